@@ -431,6 +431,21 @@ func (sc *Scope) trField(x EField) (Term, types.Type) {
 // trRef translates an expression denoting a struct-typed field reached through
 // a pointer into the reference of that embedded struct object.
 func (sc *Scope) trRef(e Expr) (Term, types.Type, bool) {
+	if id, isId := e.(EIdent); isId && sc.frame != nil && !sc.qvars[id.Name] {
+		// a struct-typed local variable that lives in the heap (its address is taken): the object itself
+		for _, a := range sc.frame.allAllocs() {
+			if a.Comment != id.Name {
+				continue
+			}
+			elem := a.Type().Underlying().(*types.Pointer).Elem()
+			if isStruct(elem) && !sc.frame.scalarLocal(a) {
+				if v, ok := sc.frame.regs[a]; ok {
+					return v.T, elem, true
+				}
+			}
+			break
+		}
+	}
 	f, ok := e.(EField)
 	if !ok {
 		return Term{}, nil, false
@@ -493,7 +508,7 @@ func (sc *Scope) trIndex(x EIndex) (Term, types.Type) {
 		if isStruct(u.Elem()) {
 			return sc.load(ref, u.Elem()), u.Elem()
 		}
-		hn, hs := env.cellHeap(u.Elem())
+		hn, hs := env.elemHeap(u.Elem())
 		return Select(sc.heap(hn, hs), ref), u.Elem()
 	case *types.Map:
 		k, _ := sc.Tr(x.I)
